@@ -388,6 +388,16 @@ func (e *Engine) appendOp(s *State, x ssa.CallInstruction, args []Value) {
 		return
 	}
 	elemKey := "elem(" + e.typeKey(st.Elem()) + ")"
+	if e.cfg.CheckFrame && e.curFramed {
+		// append writes into the existing backing array when it has spare capacity: in a function that
+		// may write only its own fresh objects the array must be fresh (or nil), or be full
+		name := e.siteName("FRAME", x, "append")
+		if ch := s.top().chain; ch != "" {
+			name = ch + "/" + name
+		}
+		goal := Or(freshCond(a[0]), Eq(a[0], Zero), Lt(a[3], Add(a[2], b[2])))
+		e.oblige(s, "FRAME", name, "append must not write into a pre-existing backing array", x.Pos(), goal)
+	}
 	if e.isRepoPtr(st.Elem()) && b[2].K == KInt {
 		for i := int64(0); i < b[2].I; i++ {
 			v := e.load(s, Place{Prefix: elemKey, Addr: []*Term{b[0], Add(b[1], Int(i))}}, st.Elem())
